@@ -50,6 +50,13 @@ def main():
         t = O.random_tables(run.rng, sites=True, populations=(k % 2 == 0), migrations=(k % 4 == 0), max_breaks=3)
         if t.edges.num_rows == 0:
             continue
+        if t.mutations.num_rows and k % 2 == 0:
+            # known times on every mutation of the odd sites (each at its node's time: always valid)
+            tm = np.array(t.mutations.time)
+            for j, m in enumerate(t.mutations):
+                if m.site % 2 == 1:
+                    tm[j] = t.nodes.time[m.node]
+            t.mutations.time = tm
         # known mutation times on some sites (valid: >= node time, <= parent mutation time)
         desc = {"case": "seed=%d case=%d" % (run.seed, k), "tables": O.brief(t), "edge_md": [e.metadata.decode() for e in t.edges]}
         run.case()
